@@ -9,6 +9,7 @@ THEOREMS = {
     "C02": ("TrVerif.Props.C02", ["Tr.C02_partial", "Tr.C02_times", "Tr.C02_arrival", "Tr.C02_first_wait", "Tr.stepsOfLegs_transfer", "Tr.bestEgress_spec"]),
     "C06": ("TrVerif.Props.C06", ["Tr.C06_totals", "Tr.C06_route"]),
     "C07": ("TrVerif.Props.C07", ["Tr.C07_route_strings", "Tr.C07_accessibility_strings", "Tr.C07_enum_order", "Tr.C07_access"]),
+    "C08": ("TrVerif.Props.C08", ["Tr.C08_sound", "Tr.forwardNode_sound", "Tr.fwdScanList_inv", "Tr.fwdStep_inv", "Tr.init_FInv"]),
     "C09": ("TrVerif.Props.C09", ["Tr.C09_sound", "Tr.reverseNode_sound", "Tr.collectNodes_sorted", "Tr.collectNodes_mem"]),
     "C10": ("TrVerif.Props.C10", ["Tr.C10_alternatives"]),
     "C11": ("TrVerif.Props.C11", ["Tr.C11_connSet", "Tr.C11_restrict", "Tr.C11_answers", "Tr.C11_route"]),
@@ -56,12 +57,17 @@ _reg("C02", "PROOF (all clauses, over the model): Tr.C02_partial - every ridden 
      "Lean 4 theorems (invariant + refinement chain) + differential correspondence + executable oracle")
 for _pid, _what in (("C03", "earliest arrival (reference forward solver over all admissible journeys)"),
                     ("C04", "latest departure (reference backward solver)"),
-                    ("C05", "latest departure for the reported arrival (reference backward solver from the reported arrival)"),
-                    ("C08", "set of reachable stops and earliest alighting time per stop (reference forward solver)")):
+                    ("C05", "latest departure for the reported arrival (reference backward solver from the reported arrival)")):
     _reg(_pid, "NO THEOREM for the optimality this property is about (proofs not reached; DESIGN 0.1). That the returned route is an executable itinerary within the limits is C01 / C02 "
          "(proved). " + _M + " in full; " + _what + " is recomputed for every generated case by an independent brute-force reference and compared with the implementation's answer. "
          "This is testing of the property on generated inputs, not a proof.",
          "differential correspondence with the Lean model + reference solver on generated inputs (no theorem)")
+_reg("C08", "PROOF (partial: soundness half): Tr.C08_sound - every stop a departure-time accessibility answer lists is reachable with the reported time: a traveller leaving the place at the "
+     "requested time can stand (inductive Reach: access walk, or earlier rides each followed by one footpath within the transfer maximum) at the boarding stop of a permitted boarding no later "
+     "than its departure minus the minimum waiting time, on a trip that is not excluded and that alights (permitted) at the listed stop at nodeTime; totalTravelTime = nodeTime - requested "
+     "time <= max_travel_time; each stop once, ascending; totalNodeCount = number of stops. Proved by a soundness invariant of the forward scan (Tr.fwdStep_inv). NOT proved: that every "
+     "reachable stop is listed and that nodeTime is the EARLIEST such time (completeness of the forward scan); that half is decided per answer by the brute-force reference solver. " + _M + ".",
+     "Lean 4 theorem (soundness via a forward-scan invariant) + differential correspondence + reference solver for completeness")
 _reg("C09", "PROOF (partial: soundness half): Tr.C09_sound - every stop an arrival-time accessibility answer lists is usable with the reported time: a chain of scheduled rides (boarding / "
      "alighting permitted, changes by one footpath within the transfer maximum after the minimum waiting time) boards at that stop at nodeTime + minimum waiting and alights at a stop the "
      "router offers, early enough to reach the place by the requested time; totalTravelTime = requested time - nodeTime <= max_travel_time; each stop once, ascending; totalNodeCount = "
